@@ -122,6 +122,8 @@ func (s *initFlowSynchronizationImpl) Clear() {
 	s.externalAgentsRegisteredGate.Clear()
 	s.runtimeReadyGate.Clear()
 	s.agentReadyGate.Clear()
+	// the number of agents of the next initialisation is not known yet
+	_ = s.agentReadyGate.SetCount(maxAgentsLimit)
 	s.runtimeRestoreReadyGate.Clear()
 }
 
